@@ -66,7 +66,9 @@ def decCodec : Codec Dec where
       | [c, n] => do
         let c ← c.toInt?
         let n ← n.toNat?
-        pure ⟨c, n⟩
+        -- only values a `Decimal` can hold (i128 coefficient, at most 18 fractional digits): the theorems
+        -- about comparison symmetry (`OracleSound.c02symm_accepts_model_partial`) speak about those
+        if Dec.wf ⟨c, n⟩ then pure ⟨c, n⟩ else none
       | _ => none
     else none
   render := fun a => s!"d{a.coeff}/{a.nfd}"
@@ -846,7 +848,8 @@ def step (line impl : String) : String × Verdict :=
             let ps : Option Rat := do
               let p ← R.val sL
               let q ← R.val sR
-              pure (opQ p q)
+              -- a divisor unit of scale zero (`OracleSound.c04_div_rejects_model_zero_divisor_scale`): no exact quotient
+              if !isMul && q == 0 then none else pure (opQ p q)
             let magV := Oracle.c04 M pa ps sw (R.val z)
             let refV : Verdict :=
               if some i == TL.refIx && some j == TR.refIx then
